@@ -46,9 +46,10 @@ fn small_config() -> BoxedStrategy<CbConfig> {
         1usize..=4,
         prop_oneof![Just(20u64), Just(30u64), 20u64..=100],
         prop_oneof![3 => Just(None), 1 => (5u64..=20, prop_oneof![Just(5u8), Just(10u8)]).prop_map(Some)],
+        prop_oneof![12 => Just(0u8), 1 => 1u8..=3],
     )
         .prop_map(
-            |(time_based, size, window_ms, thr20, min, permitted, wait_ms, slow)| CbConfig {
+            |(time_based, size, window_ms, thr20, min, permitted, wait_ms, slow, wait_huge)| CbConfig {
                 time_based,
                 size,
                 window_ms,
@@ -59,6 +60,7 @@ fn small_config() -> BoxedStrategy<CbConfig> {
                 slow,
                 custom_classifier: false,
                 idle_slow_rate10: None,
+                wait_huge,
             },
         )
         .boxed()
@@ -327,7 +329,7 @@ async fn interp(case: &CbcCase) -> Verdict {
 
     // ------------------------------------------------------------ oracles over the history
     let snap = log.snapshot();
-    let wait2 = 2 * cfg.wait_ms + 1;
+    let wait2 = if cfg.wait_huge > 0 { u64::MAX } else { 2 * cfg.wait_ms + 1 };
     let permitted = cfg.permitted;
     let mut cur = CLOSED;
     let mut opened_at = 0u64;
@@ -538,6 +540,9 @@ async fn interp(case: &CbcCase) -> Verdict {
     }
     if case.fallback {
         v.classes.push("with_fallback");
+    }
+    if cfg.wait_huge > 0 {
+        v.classes.push("never_auto_recover_wait");
     }
     if cancelled_at.iter().any(|c| c.is_some()) {
         v.classes.push("cancellation");
